@@ -108,7 +108,37 @@ def plan(tier, seed):
     phases.append({'name': 'argument-expressions', 'cases': [{'fn': f, 'arg': a, 'lead': l} for f in range(len(ARG_FUNCS))
                                                              for a in range(len(ARG_EXPRS)) for l in range(len(ARG_LEADS))],
                    'runner': 'run_arg_expr', 'chunk': 60})
+    # areas joined with &: every area of the chain takes part (compared with the same join written cell by cell)
+    phases.append({'name': 'joined-areas', 'cases': [{'k': k, 'n': n, 'q': q} for k in (2, 3, 4, 5) for n in (1, 2, 3) for q in (0, 1)],
+                   'runner': 'run_joined', 'chunk': 8})
     return phases
+
+
+def run_joined(cases, stats):
+    cols = ['A', 'B', 'A', 'B', 'A']
+    texts = []
+    for c in cases:
+        areas = [(f"'D'!{x}1:{x}3" if c['q'] and j % 2 else f'{x}1:{x}3') for j, x in enumerate(cols[:c['k']])]
+        texts.append('=INDEX(' + '&'.join(areas) + f',{c["n"]})')
+        texts.append('=' + '&'.join(f'INDEX({a},{c["n"]})' for a in areas))
+    vals = full_eval(texts, stats)
+    vio = []
+    for i, c in enumerate(cases):
+        a, b = vals[2 * i], vals[2 * i + 1]
+        stats['validated'] += 1
+        stats['nontrivial'] += 1
+
+        def flat(v):
+            while isinstance(v, (list, tuple)) and len(v) == 1:
+                v = v[0]
+            return v
+        ok = a[0] == b[0] == 'VALUE' and flat(a[1]) == b[1]
+        stats['out:' + ('same' if ok else 'differs')] += 1
+        if not ok:
+            vio.append({'i': i, 'desc': {'gen': 'joined-areas', 'base': 'INDEX', 'areas': c['k'], 'outcome': a[0] if a[0] != 'VALUE' else 'VALUE_MISMATCH'},
+                        'expected': [texts[2 * i + 1], D.enc(b[1]) if b[0] == 'VALUE' else list(b)],
+                        'observed': [texts[2 * i], D.enc(a[1]) if a[0] == 'VALUE' else list(a)]})
+    return vio
 
 
 ARG_FUNCS = ['COUNT({x})', 'SUM({x})', 'MAX({x})', 'MIN({x})', 'AVERAGE({x})', 'AND({x})', 'OR({x})', 'CONCATENATE({x})', 'COUNTBLANK(A1:A2)+COUNT({x})',
